@@ -1649,6 +1649,8 @@ class ChoiceInterp(Interp):
                 return recv.decode(*args)
             except (UnicodeError, LookupError):
                 raise PyExc('UnicodeDecodeError')
+        if isinstance(recv, str) and name in ('isalnum', 'isupper', 'islower', 'isnumeric', 'isdecimal', 'isascii') and not args:
+            return getattr(recv, name)()
         if isinstance(recv, list) and name == 'index' and len(args) in (2, 3) and all(isinstance(a, int) for a in args[1:]):
             hi = args[2] if len(args) == 3 else len(recv)
             for i, x in enumerate(recv):
@@ -1932,6 +1934,47 @@ def tabulate_scoring(tab, listed, is_sep, max_n):
                     if not (isinstance(got, list) and len(got) == 1 and got[0] == (place, w, tab.types[tag])) and s_fail is None:
                         s_fail = '%r in %r: %s' % (w, source, got)
     return out, (s_conf, s_fail)
+
+
+PUNCTUATION = ["'", '\u2019', ',', '.', '(', ')', '!', '?', '"', ' ']
+
+
+def tabulate_punctuation(tab, listed, is_sep, small=False):
+    """a listed expression written between punctuation: <p1> w <p2>, p1 of length <= 1, p2 of length <= 2 (second character from a smaller set) over the characters
+    of PUNCTUATION that are separators for this culture's tokenizer (punctuation is followed by more punctuation, a blank or
+    the end - never directly by a letter); alone and between filler words.  The one reported entity must be w at its place.
+    Tabulated for one word per polarity, every multi-token phrase and one emoji (tokenisation is per character class).
+    -> (configurations, first failure or None)"""
+    P = [c for c in (PUNCTUATION[:4] + [' '] if small else PUNCTUATION) if c.isspace() or is_sep(c)]
+    reps = []
+    for tag in ('T', 'F'):
+        ws = sorted(w for w, t in listed if t == tag and not is_emoji_word(w) and len(tokens_of(w, is_sep)) == 1)
+        longer = [w for w in ws if len(w) > 1]
+        if longer or ws:
+            reps.append(((longer or ws)[0], tag, 'full'))
+    for w, tag in sorted(listed):
+        if not is_emoji_word(w) and len(tokens_of(w, is_sep)) >= 2:
+            reps.append((w, tag, 'full'))
+    em = sorted((w, t) for w, t in listed if is_emoji_word(w) and len(w) == 1)
+    if em:
+        reps.append((em[0][0], em[0][1], 'short'))
+    n_conf, fail = 0, None
+    second = [c for c in P if c in ("'", '.', ',', ')', ' ')]
+    for n_rep, (w, tag, depth) in enumerate(reps):
+        ctx = [(p1, p2, fill) for p1 in [''] + P for p2 in [''] + P for fill in ((False, True) if n_rep == 0 else (False,))]
+        if depth == 'full':
+            ctx += [(p1, a + b, False) for p1 in ['', "'"] if p1 == '' or p1 in P for a in P for b in second]
+        for p1, p2, fill in ctx:
+            source = p1 + w + p2
+            place = len(p1)
+            if fill:
+                source = FILLER + ' ' + source + ' ' + FILLER
+                place += len(FILLER) + 1
+            n_conf += 1
+            got = tab.extract(source, True)
+            if not (isinstance(got, list) and len(got) == 1 and got[0] == (place, w, tab.types[tag])) and fail is None:
+                fail = '%r written %r: reported %s' % (w, source, got)
+    return n_conf, fail
 
 
 # =====================================================================================================
@@ -2735,8 +2778,14 @@ def analyse_tabulation(idx, E, r, xk, pol, is_sep, ttree, emap, stores, wired, t
     E.judge(s_fail is None, 'C20.scoring', xo.mod.path, '%s %s.extract single-token expressions' % (r.construct, xo.name),
             'every single-token expression alone or between fillers is the one reported entity' if s_fail is None else s_fail,
             'extract, interpreted as written: %s' % s_fail, xfn.lineno)
-    E.observe('%s: extract interpreted on %d sources (%d phrase configurations up to %d tokens for %s; %d single-token placements)'
-              % (r.construct, T.runs, sum(n for _w, n, _f in phrases), tab['max_n'], [w for w, _n, _f in phrases], s_conf))
+    p_conf, p_fail = tabulate_punctuation(T, listed, is_sep, small=tab.get('small', False))
+    E.judge(p_fail is None, 'C20.scoring', xo.mod.path, '%s %s.extract punctuation contexts' % (r.construct, xo.name),
+            'an expression between quotes, brackets, commas, full stops is the one reported entity' if p_fail is None else p_fail,
+            'extract, interpreted as written on <punctuation> expression <punctuation>: %s (the tokens of the query no longer '
+            'contain the tokens of the match, so match_value is 0 and the match is dropped)' % p_fail, xfn.lineno)
+    E.observe('%s: extract interpreted on %d sources (%d phrase configurations up to %d tokens for %s; %d single-token placements; '
+              '%d punctuation contexts)'
+              % (r.construct, T.runs, sum(n for _w, n, _f in phrases), tab['max_n'], [w for w, _n, _f in phrases], s_conf, p_conf))
 
 
 def run(chk):
@@ -3089,6 +3138,7 @@ CONTROL_EDITS_2 = {
     'C20.span': [("value.start = match.start()", "value.start = lowered.find(match.group())")],
     'C20.word': [("regex.finditer(StringUtility.remove_unicode_matches(regexp), lowered)",
                   "regex.finditer(StringUtility.remove_unicode_matches(regexp), source)")],
+    'C20.scoring': [("            elif pattern.search(char) is None:\n", "            elif pattern.search(char) is None or (char == \"'\" and token != ''):\n")],
 }
 
 
@@ -3107,7 +3157,7 @@ def controls(chk):
     for tag, pkg in (('control', CONTROL_PACKAGE), ('control2', pkg2)):
         ix, _m = mini_index(pkg, tag)
         base = Recorder()
-        analyse(ix, base, tab={'max_n': 5})
+        analyse(ix, base, tab={'max_n': 5, 'small': True})
         if base.bad_rules:
             raise AnalysisError('%s package: the unedited package is flagged by %s %s'
                                 % (tag, sorted(base.bad_rules), list(base.bad_rules.values())[0][:1]))
@@ -3117,7 +3167,7 @@ def controls(chk):
             ix, _m = mini_index(_edited(pkg, edits, rid), '%s-%s' % (tag, rid))
             rec = Recorder()
             try:
-                analyse(ix, rec, tab={'max_n': 5} if rid == 'C20.scoring' else None)
+                analyse(ix, rec, tab={'max_n': 5, 'small': True} if rid == 'C20.scoring' else None)
             except AnalysisError as e:
                 raise AnalysisError('%s for %s could not be analysed: %s' % (tag, rid, e))
             fired.setdefault(rid, []).append(rid in rec.bad_rules)
